@@ -49,6 +49,8 @@ Proof.
   - (* LClose *) destruct (s_offer s); [discriminate|]. frame Hs Hnd Hlt Hpc.
   - (* LRecv *)
     destruct (s_pc s) eqn:Epc; try discriminate. destruct (s_offer s) as [m|]; [|discriminate].
+    destruct (cstate_eqb (s_fsm s) CRunning && fsm_allowed (s_fsm s) CReloading);
+      [|injection Hs as <-; exact (conj Hnd (conj Hlt Hpc))].
     destruct (is_perm ord (keys (s_entries s))) eqn:Ep; [|discriminate]. injection Hs as <-.
     unfold acct_pc in Hpc. rewrite Epc in Hpc. destruct Hpc as (Hk & Hp & Hsp & Hsh).
     set (cur := s_entries s) in *. set (des := new_entries m) in *.
